@@ -65,6 +65,8 @@ def make_aligner(P, mult, var, it=1):
 
 def mk_ends_seg(s):
     a, b, c, d, e, f = ints(s)
+    # coordinates as Fractions: the real scorer's `/` is then exact (duck typing)
+    a, b, d, e = Fraction(a), Fraction(b), Fraction(d), Fraction(e)
     p1 = ScoredAlignedPair(AlignedPair(L(0, a), L(c, b)), 0)
     p2 = ScoredAlignedPair(AlignedPair(L(0, d), L(f, e)), 0)
     return AlignmentSegment([p1, p2], 0, Peak(0, 1.0), [])
